@@ -143,7 +143,8 @@ func (this *RLT) Forward(src, dst []byte) (uint, uint, error) {
 	dstIdx := 0
 	srcEnd := len(src)
 	srcEnd4 := srcEnd - 4
-	dstEnd := len(dst)
+	// Do not let the result depend on the size of the buffer provided
+	dstEnd := this.MaxEncodedLen(len(src))
 	run := 0
 	var err error
 	prev := src[srcIdx]
